@@ -264,7 +264,7 @@ def part(prop, tier, rng, fxv, rd, design=False):
     viol, cov = run(prop, tier, rng, fxv, os.path.join(rd, "coord"))
     if design:
         mrd = os.path.join(rd, "coordmc")
-        r = v.run_tlc("MCCoord", "MCCoord_quick.cfg" if tier == "quick" else "MCCoord_mid.cfg", mrd, workers=6,
+        r = v.run_tlc("MCCoord", "MCCoord_quick.cfg" if tier == "quick" else "MCCoord_thorough.cfg", mrd, workers=6,
                       timeout=3600, coverage=False, xmx="12g")
         v.tlc_ok(r, "MCCoord")
         cov["design_states"] = r.distinct
